@@ -37,6 +37,29 @@ def run(fx, rep, tier):
                   floors={"one_of-match-exhaustive": 4, "digit-parse": 1, "assert-64-by-width": 1, "array-64-by-width": 2})
     rule_tables(fx, rep)
     rule_fields(fx, rep)
+    rule_key(fx, rep)
+
+
+def rule_key(fx, rep):
+    """'... gives an identical position (placement, side, rights, en-passant target, clocks, *key*)': a position read from FEN
+    carries the from-scratch key (zobrist::hash via Game::from_state), the position it was written from carries the key
+    maintained move by move. The two agree exactly when the C03 clauses hold (every component family xored by the
+    from-scratch function under the same condition as the incremental toggle - seed C06-6a: the no-en-passant word left out of
+    the from-scratch key only); they are re-reported here as that premise."""
+    import core
+    import pC03
+    sub = type(rep)(rep.prop, rep.tier)
+    q = core.QUIET
+    core.QUIET = True
+    try:
+        pC03.run(fx, sub, rep.tier)
+    finally:
+        core.QUIET = q
+    for v in sub.violations:
+        rep.violation("C06-KEY", v["key"].replace("C03-", "C06-KEY/", 1), v["msg"] + " (a position read back from its FEN then carries a different key than the position it was written from)", v["site"])
+    rep.obligations += sub.obligations
+    rep.discharged += sub.discharged
+    rep.rule("C06-KEY", sub.obligations, 100, not sub.violations, "key of a position read from FEN = key maintained move by move (shared with C03)")
 
 
 def material_guard(fx):
@@ -662,6 +685,8 @@ def rule_tables(fx, rep):
 P = "src/chess/fen/fen_parser.rs"
 W = "src/chess/fen/fen_writer.rs"
 MUTANTS = [
+    {"name": "from-scratch key leaves out the no-en-passant word (seed C06-6a)", "expect": "C06-KEY/SCRATCH/ep",
+     "edits": [("src/chess/zobrist.rs", "    hash ^= en_passant(game.en_passant_target);", "    if game.en_passant_target.is_some() {\n        hash ^= en_passant(game.en_passant_target);\n    }")]},
     {"name": "constructor caps the halfmove clock at 100 (seed C06-4b)", "expect": "C06-FIELDS/install",
      "edits": [("src/chess/game.rs", "            en_passant_target,\n            halfmove_clock,\n            plies,\n\n            zobrist: ZobristHash::uninit(),", "            en_passant_target,\n            halfmove_clock: halfmove_clock.min(100),\n            plies,\n\n            zobrist: ZobristHash::uninit(),")]},
     {"name": "men-per-side limit removed from the reader (original defect)", "expect": "C06-CONE",
